@@ -66,9 +66,9 @@ Proof. exact np_unwrap. Qed.
 Print Assumptions C09_no_panic_unwrap.
 
 (* every request helper and token-level function at once: neither panic nor wedge *)
-Theorem C09_helpers_return : forall c e start replies,
+Theorem C09_helpers_return : forall f c e start replies,
   helper_or_function c = true ->
-  mem CPanic (run_comp c e start replies) = false /\ mem CBlocked (run_comp c e start replies) = false.
+  mem CPanic (run_comp f c e start replies) = false /\ mem CBlocked (run_comp f c e start replies) = false.
 Proof. exact helpers_safe. Qed.
 Print Assumptions C09_helpers_return.
 
@@ -100,22 +100,60 @@ Theorem C09_no_panic_receipts : forall r, mem CPanic (receipts_handle r) = false
 Proof. exact np_receipts. Qed.
 Print Assumptions C09_no_panic_receipts.
 
-(* ibb.Handler.HandleIQ (sources owned by C15/C06): no panic before the decoder;
-   an accepted <open/> parks only while nobody accepts from the listener. *)
-Theorem C09_no_wedge_ibb_partial : forall e start rs,
-  mem CPanic (run_comp HIbbIQ e start rs) = false /\
-  (e_ready e = true -> mem CBlocked (run_comp HIbbIQ e start rs) = false).
+(* ibb.Handler.HandleIQ (sources owned by C15/C06), for every history of
+   Listen / Accept / Listener.Close calls of the application on a session with a
+   full or a bare local address: when the listener table is deleted from under
+   the key it is inserted with, an <open/> never meets a closed listener (no
+   panic), and it parks only while a listener is registered that nobody accepts
+   from. *)
+Theorem C09_no_wedge_ibb_partial : forall f e start,
+  f_keys_agree f = true ->
+  mem CPanic (ibb_iq f e start) = false /\
+  (listener_served f e = true -> mem CBlocked (ibb_iq f e start) = false).
 Proof. exact nw_ibb_partial. Qed.
 Print Assumptions C09_no_wedge_ibb_partial.
 
+(* muc.Client.HandlePresence (sources owned by C18), for every history of joins,
+   departures and Leave calls: no panic; never parked when the departure
+   notification is one alternative of a select. *)
+Theorem C09_no_wedge_muc_presence : forall f e,
+  f_depart_select f = true -> mem CPanic (muc_presence f e) = false /\ mem CBlocked (muc_presence f e) = false.
+Proof. exact muc_presence_select. Qed.
+Print Assumptions C09_no_wedge_muc_presence.
+
+(* the two facts hold of the sources the check runs on (regenerated on every run):
+   every insertion into and deletion from the listener table uses the same key
+   expression; the departure notification is sent inside a select *)
+Theorem C09_listener_table_keys_agree : f_keys_agree gen_facts = true.
+Proof. exact listener_table_keys_agree. Qed.
+Print Assumptions C09_listener_table_keys_agree.
+
+Theorem C09_depart_is_select : f_depart_select gen_facts = true.
+Proof. exact depart_is_select. Qed.
+Print Assumptions C09_depart_is_select.
+
 (* ---- all components ---- *)
 
-(* No component panics: for every component, environment, start element and
-   readers (every token list, either way for a reader to end, every script of
-   replies). *)
-Theorem C09_no_panic : forall c e start rs, mem CPanic (run_comp c e start rs) = false.
+(* No component panics: for every component, environment (application history,
+   full or bare local address), start element and readers (every token list,
+   either way for a reader to end, every script of replies) — given the table
+   fact, *)
+Theorem C09_no_panic_given_keys : forall f c e start rs,
+  f_keys_agree f = true -> mem CPanic (run_comp f c e start rs) = false.
 Proof. exact run_comp_no_panic. Qed.
+Print Assumptions C09_no_panic_given_keys.
+
+(* hence unconditionally for the sources the check runs on; *)
+Theorem C09_no_panic : forall c e start rs, mem CPanic (run_comp gen_facts c e start rs) = false.
+Proof. exact np_this_tree. Qed.
 Print Assumptions C09_no_panic.
+
+(* and the table fact is needed: without it an <open/> after Listen and
+   Listener.Close on a session with a full local address panics. *)
+Theorem C09_no_panic_needs_keys : forall f, f_keys_agree f = false ->
+  exists e start, mem CPanic (run_comp f HIbbIQ e start []) = true.
+Proof. exact no_panic_needs_keys. Qed.
+Print Assumptions C09_no_panic_needs_keys.
 
 (* The unconditional no-wedge claim is false of the faithful model: a hand-over
    to a partner that never shows up parks ... *)
@@ -123,17 +161,20 @@ Theorem C09_no_wedge_refuted : ~ no_wedge_statement.
 Proof. exact no_wedge_statement_refuted. Qed.
 Print Assumptions C09_no_wedge_refuted.
 
-(* ... and that is the only way: a component parks only in a hand-over whose
-   partner is absent (the history iterator, the ibb listener); *)
-Theorem C09_no_wedge_partial : forall c e start rs,
-  mem CBlocked (run_comp c e start rs) = true -> e_ready e = false /\ (c = HHistory \/ c = HIbbIQ).
+(* ... and these are the only ways: the history iterator is neither advanced nor
+   released, a listener is registered that nobody accepts from, or (not the case
+   in these sources) the muc departure is a plain send; *)
+Theorem C09_no_wedge_partial : forall f c e start rs,
+  mem CBlocked (run_comp f c e start rs) = true ->
+  (c = HHistory /\ e_ready e = false) \/ (c = HIbbIQ /\ listener_served f e = false) \/
+  (c = HMucPres /\ f_depart_select f = false).
 Proof. exact no_wedge_partial. Qed.
 Print Assumptions C09_no_wedge_partial.
 
 (* under its condition every component returns. *)
-Theorem C09_every_component_returns : forall c e start rs,
-  comp_cond c e = true ->
-  mem CPanic (run_comp c e start rs) = false /\ mem CBlocked (run_comp c e start rs) = false.
+Theorem C09_every_component_returns : forall f c e start rs,
+  f_keys_agree f = true -> comp_cond f c e = true ->
+  mem CPanic (run_comp f c e start rs) = false /\ mem CBlocked (run_comp f c e start rs) = false.
 Proof. exact run_comp_safe. Qed.
 Print Assumptions C09_every_component_returns.
 
@@ -141,15 +182,16 @@ Print Assumptions C09_every_component_returns.
 
 (* For every script of top-level elements, whatever handlers each one reaches
    (any routing) and whatever their environments, Serve does not panic; *)
-Theorem C09_serve_never_panics : forall script, ~ In Panicked (serve_may script).
-Proof. exact serve_never_panics. Qed.
+Theorem C09_serve_never_panics : forall script, ~ In Panicked (serve_may gen_facts script).
+Proof. exact serve_never_panics_this_tree. Qed.
 Print Assumptions C09_serve_never_panics.
 
 (* and if every invocation meets its component's condition Serve returns — with
    nil at the end of input or with the error it reported. *)
-Theorem C09_serve_returns_at_end_of_input : forall script,
-  (forall el i, In el script -> In i el -> inv_cond i = true) ->
-  forall o, In o (serve_may script) -> o = Returned.
+Theorem C09_serve_returns_at_end_of_input : forall f script,
+  f_keys_agree f = true ->
+  (forall el i, In el script -> In i el -> inv_cond f i = true) ->
+  forall o, In o (serve_may f script) -> o = Returned.
 Proof. exact serve_returns. Qed.
 Print Assumptions C09_serve_returns_at_end_of_input.
 
